@@ -1,11 +1,13 @@
 pub mod c01;
 pub mod c02;
 pub mod c03;
+pub mod c04;
 pub mod c05;
 pub mod c06;
 pub mod c07;
 pub mod c08;
 pub mod c09;
+pub mod c12;
 pub mod c13;
 pub mod c15;
 pub mod c16;
@@ -21,11 +23,13 @@ pub fn table() -> Vec<(&'static str, PropFn)> {
         ("C01", c01::run as PropFn),
         ("C02", c02::run as PropFn),
         ("C03", c03::run as PropFn),
+        ("C04", c04::run as PropFn),
         ("C05", c05::run as PropFn),
         ("C06", c06::run as PropFn),
         ("C07", c07::run as PropFn),
         ("C08", c08::run_prop as PropFn),
         ("C09", c09::run as PropFn),
+        ("C12", c12::run as PropFn),
         ("C13", c13::run as PropFn),
         ("C15", c15::run as PropFn),
         ("C16", c16::run as PropFn),
